@@ -239,6 +239,8 @@ func (pipeline *Pipeline) OutputLanguages() (languages.Languages, error) {
 
 	for _, output := range pipeline.Output.Languages {
 		switch {
+		case output == nil:
+			return nil, fmt.Errorf("empty language configuration")
 		case output.Go != nil:
 			outputs[golang.LanguageRef] = golang.New(*output.Go)
 		case output.Java != nil:
